@@ -1,5 +1,6 @@
 import Vanguard.Lemmas.Source
 import Vanguard.Lemmas.UInt8
+import Vanguard.Gen.Facts
 /-!
   C09 — Truncated or malformed streams never surface as success.
 
@@ -66,5 +67,10 @@ theorem eof_only_at_boundary (src : Source) (hd : src.data = []) (he : src.endin
   rw [h, hd]
   have : (src.ending == SrcEnd.unexpected) = false := by simpa using he
   simp [shortErr, this]
+
+
+/-- Every envelope dialect of the model has a 5-byte prefix; so has the source (`envelopeLen`,
+    regenerated on every run). -/
+theorem source_envelope_length_is_model : Gen.envelopeLen = 5 := by decide
 
 end Vanguard.C09
